@@ -5,9 +5,11 @@ import numpy as np
 from harness import circgen as cg, oracle_net as on
 
 THEOREMS = ['C17_topo_nodup', 'C17_sources_first', 'C17_drivers_first', 'C17_complete', 'C17_levels', 'C17_levels_domain',
-            'C17_line_order', 'C17_reverse_is_mirror', 'C17_reverse_complete', 'C17_readers_first', 'C17_locs_numeric_order']
+            'C17_line_order', 'C17_reverse_is_mirror', 'C17_reverse_complete', 'C17_readers_first', 'C17_locs_numeric_order',
+            'C17_fanin_order', 'C17_fanin_nodup', 'C17_fanin_sound', 'C17_fanin_complete_comb', 'C17_fanin_exact_comb',
+            'C17_fanin_unfold', 'C17_fanin_comb_node', 'C17_fanin_seq_node', 'C17_acyclic_rev_b_sound']
 HEADER = '''From Coq Require Import List NArith ZArith Bool Arith String.
-From KV Require Import Model.Netlist Model.Locs Model.Corr Proofs.WfCheck.
+From KV Require Import Model.Netlist Model.Locs Model.Corr Proofs.WfCheck Proofs.FaninProofs.
 Import ListNotations.
 Local Open Scope list_scope.
 Local Open Scope string_scope.
@@ -180,7 +182,7 @@ def run(ck):
         exp = ([x.index for x in c.topological_order()], [(n.index, int(l)) for n, l in c.topological_order_with_level()],
                [l.index for l in c.topological_line_order()], [x.index for x in c.reversed_topological_order()],
                [x.index for x in c.fanin([c.nodes[o] for o in origins])])
-        cases.append(f'wf_netlist_b {cg.coq_netlist(c)} && acyclic_b {cg.coq_netlist(c)} && trav_case {cg.coq_netlist(c)} {cg.coq_list(origins)} ({cg.coq_list(exp[0])}, '
+        cases.append(f'wf_netlist_b {cg.coq_netlist(c)} && acyclic_b {cg.coq_netlist(c)} && acyclic_rev_b {cg.coq_netlist(c)} && trav_case {cg.coq_netlist(c)} {cg.coq_list(origins)} ({cg.coq_list(exp[0])}, '
                      f'{cg.coq_list(exp[1], lambda p: f"({p[0]}, {p[1]})")}, {cg.coq_list(exp[2])}, {cg.coq_list(exp[3])}, {cg.coq_list(exp[4])})')
         meta.append(desc)
         if i < 2:
@@ -191,7 +193,7 @@ def run(ck):
     bad = [ci * 60 + j for ci, (ok, out) in enumerate(outs) for j in ((cg.parse_nat_list(out) if ok else None) or [])]
     ran = all(ok and cg.parse_nat_list(out) is not None for ok, out in outs)
     ck.obligation(f'Coq model of topological_order / _with_level / line order / reversed order / fanin = implementation on {len(cases)} '
-                  'circuits (exact sequences); the hypotheses wf_netlist / comb_acyclic of the theorems are discharged for each circuit by the proved-sound checkers wf_netlist_b / acyclic_b', ran and not bad, 'correspondence', f'failing cases {bad[:8]}')
+                  'circuits (exact sequences); the hypotheses wf_netlist / comb_acyclic / comb_acyclic_rev of the theorems are discharged for each circuit by the proved-sound checkers wf_netlist_b / acyclic_b / acyclic_rev_b', ran and not bad, 'correspondence', f'failing cases {bad[:8]}')
     for i in range(ck.scale(150, 4000)):
         desc, what = locs_check(rng)
         ck.count(1, 'locs:' + desc['style'])
@@ -211,7 +213,8 @@ def run(ck):
     ck.trust('modelled, not verified: Circuit.topological_order, topological_order_with_level, topological_line_order, '
              'reversed_topological_order, fanin (Model/Netlist.v; exact sequence correspondence); wf_netlist is what C09 establishes for '
              'every Circuit; the prefix lookup _locs is transcribed for literal prefixes (Model/Locs.v: the regular expression is '
-             'modelled as literal prefix + maximal trailing index run) and compared exactly; the fan-in sandwich is checked by the oracle only')
+             'modelled as literal prefix + maximal trailing index run) and compared exactly; the fan-in sandwich (comb. path => yielded => path) is '
+             'a theorem about the model of fanin (C17_fanin_sound / _complete_comb / _unfold) and is re-checked on the implementation by the oracle')
     for kind, desc, what in fails[:5]:
         ck.fail(kind, ('Circuit traversal: ' if kind == 'traversal' else 'Circuit._locs: ') + what,
                 {'component': 'circuit.Circuit', 'input': desc, 'actual': what})
